@@ -379,4 +379,6 @@ HPREDS = {"h_unsigned_ge_2p63": _h_unsigned_ge_2p63, "h_negative_contents": _h_n
 # ---- predicates on compiler scenarios (C09-C13): f(scenario, event) ----------------------------
 MPREDS = {"opts_fno_constraints": lambda run, evs: "-fno-constraints" in run.get("opts", []),
           # illegal only because an OPTIONAL run of the root continues into the extension additions
+          # illegal only because a component that refers to a (non-CHOICE) type by name clashes with an untagged CHOICE
+          "illegal_only_via_alias": lambda scn, ev: (not scn.get("legal")) and bool(scn.get("legal_noalias")),
           "illegal_only_across_marker": lambda scn, ev: (not scn.get("legal")) and bool(scn.get("legal_split"))}
